@@ -5,6 +5,14 @@ HERE = os.path.dirname(os.path.dirname(os.path.abspath(__file__)))
 
 CHECKS = {
  # id: (category, level text, technique, note, design_ref)
+ "C01": ("other",
+         "Certificate bookkeeping decided on every path: send/track pairing and the lists the reconstruction ranges over, alignment of recovered multipliers with tracked objects in both back-ends, symbolic producer/consumer slot equation of the cvxpy back-end, Lagrangian sign parity, dual mode returning the constant of the identity, LMIs symmetric as written. Structure, not numbers.",
+         "structured path analysis (pairing / exactly-once counts), symbolic count polynomials, sign-parity extraction, normal-form symmetry of LMI entries",
+         "trusts cvxpy / MOSEK dual sign conventions; positivity of multipliers and tolerance are not decided", "DESIGN.md 5 C01"),
+ "C02": ("other",
+         "Lock-step leaf creation and post-solve assignment of every registered leaf at its own index from the factor of the clipped Gram matrix; sibling agreement and exhaustiveness of the four consumers of an expression decomposition; one objective <= metric constraint per metric; accumulation shape of the eval accessors.",
+         "AST shape rules with role resolution, sibling cross-checking of decomposition consumers, path counts",
+         "numeric facts (Gram reproduction, feasibility, primal <= dual) are not decided", "DESIGN.md 5 C02"),
  "C03": ("translation_validation",
          "Every condition emitted by every class family's hook is normalised from its syntax tree and compared with the literature's condition (spec/classes.py), parameters symbolic; all 24 families, all conditions, all parameter values at once. Decides the formulas, not the mathematics behind them.",
          "AST abstract interpretation of class hooks + algebraic normal forms (polynomial canonicalisation) compared with a reference table",
@@ -13,6 +21,50 @@ CHECKS = {
          "Abstract truth table of the pair generator's skip predicate, exchange-invariance / diagonal-triviality queries on normal forms, whole-list loop domains, stationary-sample existence, and two-way equivalence with the documented conditions; holds for every number and order of samples because no rule depends on them.",
          "finite abstract-domain evaluation of the skip predicate + normal-form queries + loop-domain analysis on the AST",
          "trusts spec/classes.py; does not decide that a finite value is attained by a real member", "DESIGN.md 5 C04"),
+ "C05": ("other",
+         "Every container of the declared model (discovered by the kind of object appended) is drained by exactly one whole-list loop of the solve root with the send method of its kind for every owner; sense dispatch and comparison operators by literal-set equality and normal forms; dense / sparse translators and LMI encodings interpreted per key kind; objective sense; nothing accumulates across solves; MOSEK matrix-variable indices from send order.",
+         "container discovery + exactly-one-drain path counts, literal-set agreement, abstract interpretation of the translators over (key kind, mirrored?, index order), effect closure",
+         "trusts MOSEK / cvxpy API facts listed in the evidence; numeric equality of dense and sparse data on concrete expressions is not executed", "DESIGN.md 5 C05"),
+ "C06": ("other",
+         "No operator or dictionary helper writes to an operand or creates a leaf (effect summaries over the operators' call graph); operand kinds closed as documented through delegation chains; base operators have the documented shape and derived ones are definitional in normal form; dictionary helpers interpreted abstractly per key class against their specification.",
+         "effect analysis over a resolved call graph, closed-dispatch analysis, normal-form evaluation of operator bodies, abstract interpretation over key classes",
+         "floating-point coefficient arithmetic is not analysed", "DESIGN.md 5 C06"),
+ "C07": ("other",
+         "Decision table of Function.oracle enumerated over the finite domain (evaluated?, differentiable?, term needs value?, term needs gradient?), shape of lookup / need classification / add_point, weighted-sum remainder in normal form for 1..3 terms, differentiability flags of sums, multiples and 24 families, stationary / fixed points, pruned weights before every consumer.",
+         "abstract path enumeration over a finite boolean domain, normal-form unrolling, sibling table over constructors, belief-consistency (pruning) rule",
+         "order-dependent remainder assignment over arbitrary call histories is decided per call, not over histories", "DESIGN.md 5 C07"),
+ "C08": ("translation_validation",
+         "Each of the 8 steps is interpreted abstractly per option literal (11 paths): returned values, recorded samples per function, side constraints (normal form and sense) and oracle queries are compared, up to renaming of fresh leaves, with the reference step of spec/steps.py; option dispatches closed by a raise.",
+         "abstract interpretation of straight-line step code into normal forms, compared with a reference program up to renaming",
+         "trusts spec/steps.py as transcription of the docstrings; that the real operation satisfies what is recorded is mathematics", "DESIGN.md 5 C08"),
+ "C11": ("other",
+         "Sibling cross-checking of the cvxpy and MOSEK back-ends (MOSEK is never executed by the test-suite): interface and arities, initialised attributes, tracked-list discipline, sense mapping, one dual sign transformation, row-index bookkeeping, provenance of matrix-variable indices and of the objective slot, heuristic constraint / objective, LMI encodings, sparse translator.",
+         "sibling agreement between implementations of one interface, index-provenance dataflow, reachability contradiction (leaf creation after the objective leaf)",
+         "trusts the MOSEK Task API facts listed in the evidence; equality of optimal values is not decided", "DESIGN.md 5 C11"),
+ "C12": ("other",
+         "Inventory of process-global mutable state (class-level cells written through the class, module-level objects) against the reset routine PEP.__init__ calls first; every verbosity guard encloses output only; no identity / hash / set-order / randomness / clock dependence in the package.",
+         "state inventory from effect summaries vs reset set, guard-body effect-freedom with reaching definitions, package-wide determinism lint",
+         "bit-for-bit equality of solver input follows only structurally", "DESIGN.md 5 C12"),
+ "C13": ("other",
+         "A new wrapper, fresh tracking lists and a fresh objective leaf per solve; class and partition constraints regenerated before the first send; every accumulation reachable from the per-solve roots is reset there, keyed, under an idempotence guard or an identifier counter; derived objects recompute their value at every eval; exits of the solve root.",
+         "dominance on structured control flow, interprocedural effect closure with constant-argument refinement, memo-path enumeration",
+         "equality of returned numbers across solves is not decided", "DESIGN.md 5 C13"),
+ "C14": ("other",
+         "Multipliers are captured exactly once, after exactly one solve and before every dimension-reduction call on every path; the residual comes from that capture; dual mode returns the reconstructed constant and primal mode the solver value; both back-ends add objective >= optimum - tolerance, untracked, then minimise a linear function of the Gram matrix; heuristic names dispatched by a closed chain.",
+         "dominance / ordering rules on the solve root, orientation table of the heuristic constraint, closed-dispatch analysis",
+         "'trace does not increase' and 'within tolerance' are numeric facts, not decided", "DESIGN.md 5 C14"),
+ "C15": ("other",
+         "Memo discipline of get_block, bounded symbolic unrolling for d = 1..4 (d entries, d-1 fresh leaves, entries sum back to the point, identity for d = 1), loop-domain analysis of the orthogonality generator (all points x all points, every unordered pair of distinct blocks once, unconditional), registration / draining of every partition, block-smooth formula vs spec/classes.py.",
+         "normal-form unrolling with a stated bound, loop-domain enumeration, registry / drain path rules",
+         "validity on real coordinate projections is mathematics; unrolling bound d <= 4", "DESIGN.md 5 C15"),
+ "C16": ("other",
+         "Every except clause names exception classes; the 6 value / dual accessors raise ValueError on the nothing-stored path (abstract evaluation over leaf? x value stored?) and wrapper accessors re-raise ValueError; the solve root returns the solver's None before any consumer of the solution; back-ends' solve values are None-when-unsolved; every string-option dispatch is closed by a raising else.",
+         "abstract path evaluation over a finite boolean domain, handler well-formedness lint, dominance, closed-dispatch analysis",
+         "solver status semantics are API facts", "DESIGN.md 5 C16"),
+ "C17": ("other",
+         "Both generators append exactly one cell per pair on every path (the constraint also appended to the class list, or 0), one row per outer sample, label rows / columns by the first / second list and store a DataFrame under the condition name; the reader maps cells to multipliers in place; names built from (function, condition, outer, inner); every store into the tables attribute holds a DataFrame; families emitting outside the generators still name and table.",
+         "exactly-once path counts in loop bodies, writer / reader type agreement, def-use of name parts",
+         "multiplier values are C01's business", "DESIGN.md 5 C17"),
 }
 NOT_APPLICABLE = {
  "C09": "compares the returned bound with numerical runs of a method on real functions: both sides are runtime numbers, no clause is a property of code shape beyond what C03/C04/C05/C08 already decide",
